@@ -8,3 +8,7 @@
 (assert (forall ((x Bytes)) (! (= (bcat x bempty) x) :pattern ((bcat x bempty)))))
 (assert (forall ((a (Array Int (_ BitVec 8))) (o Int)) (! (= (bytesv a o 0) bempty) :pattern ((bytesv a o 0)))))
 (assert (forall ((a (Array Int (_ BitVec 8))) (o Int)) (! (= (bytesv a o 1) (bunit (select a o))) :pattern ((bytesv a o 1)))))
+(assert (forall ((a Bytes) (b Bytes)) (! (= (blen (bcat a b)) (+ (blen a) (blen b))) :pattern ((bcat a b)))))
+(assert (forall ((a Bytes)) (! (>= (blen a) 0) :pattern ((blen a)))))
+(assert (= (blen bempty) 0))
+(assert (forall ((s String)) (! (= (blen (strBytes s)) (str.len s)) :pattern ((strBytes s)))))
